@@ -1387,7 +1387,7 @@ pub(crate) fn add_generator_dyn_unzip<W, R, T>(
                 let a = xraise!(eval(&args[0], ns, &rt)?);
 
                 let mut items = vec![];
-                rt.can_allocate((t_len * 2 + 1)*size_of::<usize>())?;
+                rt.can_allocate(t_len.saturating_mul(2).saturating_add(1).saturating_mul(size_of::<usize>()))?;
                 for i in 0..t_len {
                     let func = ManagedXValue::new(XValue::Function(XFunction::Native(Rc::new(
                         move |args, ns, _tca, rt| {
